@@ -127,6 +127,8 @@ theorem writerOK_parts (p : List Call) (h : writerOK p = true) :
       bodyOK s.inside = true ∧
       (∀ c ∈ s.after, (mutatesLog c || isLock c || c == .flockUn || c == .write .tmp) = false) := by
   unfold writerOK at h
+  rw [Bool.and_eq_true] at h
+  obtain ⟨_, h⟩ := h
   cases hs : split p with
   | none => rw [hs] at h; simp at h
   | some s =>
@@ -208,12 +210,22 @@ theorem writerOK_abstract (p : List Call) (h : writerOK p = true) :
     | true => right; left; simp [hm, hr]
     | false => right; right; simp [hm, hr]
 
+/-- the lock file keeps its identity: a program accepted by any of the three predicates never renames another file onto `.ergo/lock`, nor
+    unlinks or truncates it — so all processes that ever hold "the lock" hold a lock on one and the same file -/
+theorem lock_identity_kept (p : List Call) (h : writerOK p = true ∨ busyOK p = true ∨ readerOK p = true) :
+    ∀ c ∈ p, mutatesLock c = false := by
+  have key : (!p.any mutatesLock) = true → ∀ c ∈ p, mutatesLock c = false := fun hh => not_any_false _ _ hh
+  rcases h with h | h | h
+  · unfold writerOK at h; rw [Bool.and_eq_true] at h; exact key h.1
+  · unfold busyOK at h; simp only [Bool.and_eq_true] at h; exact key h.1.1.1
+  · unfold readerOK at h; simp only [Bool.and_eq_true] at h; exact key h.1.1.1.1.1.1
+
 /-- a process that found the lock taken did nothing: `Proc.Step.lockBusy` -/
 theorem busyOK_abstract (p : List Call) (h : busyOK p = true) :
     abstract p = [.lockBusy] ∧ (∀ c ∈ p, mutatesLog c = false ∧ readsLog c = false) := by
   unfold busyOK at h
   simp only [Bool.and_eq_true] at h
-  obtain ⟨⟨h1, h2⟩, h3⟩ := h
+  obtain ⟨⟨⟨_, h1⟩, h2⟩, h3⟩ := h
   have h2' : p.contains (Call.flockEx true) = false := by simpa using h2
   refine ⟨?_, ?_⟩
   · unfold abstract
@@ -228,7 +240,7 @@ theorem readerOK_pure (p : List Call) (h : readerOK p = true) :
     abstract p = [] ∧ (∀ c ∈ p, mutatesLog c = false) := by
   unfold readerOK at h
   simp only [Bool.and_eq_true] at h
-  obtain ⟨⟨⟨⟨⟨h1, _⟩, _⟩, _⟩, _⟩, h6⟩ := h
+  obtain ⟨⟨⟨⟨⟨⟨_, h1⟩, _⟩, _⟩, _⟩, _⟩, h6⟩ := h
   have hl := not_any_false _ _ h1
   have ht : p.contains (Call.flockEx true) = false := by
     cases hc : p.contains (Call.flockEx true) with
